@@ -53,3 +53,14 @@ func CheckEmbedded(in, whole []byte, tail string, restored bool) (ok bool, what 
 	}
 	return true, ""
 }
+
+var extendSink []byte
+
+// Extend does what a caller may do with any slice it is handed: append to it (never writing inside it). A slice that
+// was handed out with spare capacity reaching into the library's own data (the rest of the input, a shared buffer) makes
+// that data change; the results that follow are then no longer those of the source.
+func Extend(b []byte) {
+	if b != nil {
+		extendSink = append(b, 0xAA, ';', '\n', '<', '"')
+	}
+}
